@@ -53,7 +53,7 @@ def gen_view(rng):
     if k == 'mixed':
         return [k, [[rng.pick(['i', 's']), rng.randrange(0, 6), rng.randrange(1, 5), rng.randrange(1, 3)] for _ in range(3)]]
     if k == 'intarrays':
-        return [k, rng.randrange(10000), rng.randrange(0, 5)]
+        return [k, rng.randrange(10000), rng.pick([0, 1, 2, 3, 4, -1, -1])]     # -1: index arrays of the dataset's own shape
     return [k, rng.randrange(10000)]
 
 
@@ -76,6 +76,8 @@ def build_view(spec, shape):
         return tuple(out)
     if k == 'intarrays':
         rs = np.random.RandomState(spec[1])
+        if spec[2] == -1:
+            return tuple(rs.randint(0, n, size=shape) for n in shape)       # result has the shape of the dataset, other content
         return tuple(rs.randint(0, n, size=spec[2]) for n in shape)
     if k == 'bool':
         return np.random.RandomState(spec[1]).randint(0, 2, size=shape).astype(bool)
